@@ -36,6 +36,9 @@ class dtype_:
         self.itemsize = itemsize
         self.__name__ = name
 
+    def __getitem__(self, k):
+        return self          # numba type syntax: float64[:], float64[:, :]
+
     def cast(self, v):
         k = self.kind
         if isinstance(v, (Poison,)):
